@@ -253,7 +253,7 @@ def run(ctx):
             ctx.violations[k] = ("replayed case still fails", payload)
         shutil.rmtree(scratch, ignore_errors=True)
         return ctx.finish(RULE, False, [])
-    total = 40000 if ctx.thorough else 960
+    total = 16000 if ctx.thorough else 960
     infra = core.hypothesis_search(ctx, "pyv.c01", total, profiles=PROFILES)
     scratch = core.make_scratch("C01", "kf")
     rc = ctx.finish(RULE, False, [
